@@ -256,13 +256,15 @@ func (v *vLife) background(what string) vLRes {
 	case "Reap":
 		time.Sleep(3*time.Second + 800*time.Millisecond)
 		v.N.resetNodes()
+	case "Degrade":
+		v.N.awareness.ApplyDelta(3)
 	}
 	synctest.Wait()
 	return res
 }
 
 func (v *vLife) step(what string, role string, item vLItem) vLRes {
-	if what == "Accuse" || what == "PeerCrash" || what == "Reap" {
+	if what == "Accuse" || what == "PeerCrash" || what == "Reap" || what == "Degrade" {
 		r := v.background(what)
 		r.Role, r.Stage = role, item.Stage
 		return r
@@ -386,9 +388,37 @@ func vRunLife(t *testing.T, id int, sc vLSched) (l vLLine) {
 			heldDone = nil
 		case <-time.After(70 * time.Second):
 		}
-		ri := v.step(it.Inner, "inner", it)
-		ri.Gate = it.Gate
-		l.Results = append(l.Results, ri)
+		// Two calls of the same kind: the second normally blocks on the call's own lock until the
+		// first is done.  A goroutine waiting for a mutex would stall the virtual clock, so the
+		// harness looks at the lock: held - the second call is run after the first is released
+		// (that is what the lock enforces); free - the second runs while the first is half way.
+		lockHeld := false
+		if reached && it.Inner == it.Call {
+			switch it.Call {
+			case "Shutdown":
+				if v.N.shutdownLock.TryLock() {
+					v.N.shutdownLock.Unlock()
+				} else {
+					lockHeld = true
+				}
+			case "Leave":
+				if v.N.leaveLock.TryLock() {
+					v.N.leaveLock.Unlock()
+				} else {
+					lockHeld = true
+				}
+			}
+		}
+		if !lockHeld {
+			ri := v.step(it.Inner, "inner", it)
+			ri.Gate = it.Gate
+			l.Results = append(l.Results, ri)
+			if reached && it.Inner == "Shutdown" && it.Call == "Shutdown" {
+				// the second Shutdown has returned while the first is half way: whatever still runs
+				// now must stop within the bound
+				time.Sleep(v.bound + time.Second)
+			}
+		}
 		v.mu.Lock()
 		v.gateWant = ""
 		v.mu.Unlock()
@@ -405,6 +435,11 @@ func vRunLife(t *testing.T, id int, sc vLSched) (l vLLine) {
 			case <-time.After(80 * time.Second):
 				l.Results = append(l.Results, vLRes{What: it.Call, Role: "held", Gate: it.Gate, Res: "blocked", Parked: reached})
 			}
+		}
+		if lockHeld {
+			ri := v.step(it.Inner, "inner", it)
+			ri.Gate = it.Gate
+			l.Results = append(l.Results, ri)
 		}
 	}
 	// end of the schedule: shut the node down if the schedule did not, then look at what continues
